@@ -111,4 +111,23 @@ def showAttrs : Option SvcAttrs → String
   | Option.none => "raised"
   | some a => s!"restart={showVal a.restart} install={showVal a.install} fixing={showVal a.fixing}"
 
+/-- `<options> <fixing duration after install>` pairs of the listed services -/
+def loadPairs : List String → Option (List (Dict × Int))
+  | [] => some []
+  | o :: f :: rest =>
+    match parseDict o, f.toInt?, loadPairs rest with
+    | some od, some fi, some t => some ((od, fi) :: t)
+    | _, _, _ => Option.none
+  | _ => Option.none
+
+/-- the specification's answer for every listed service of a scenario (the load raises when any block raises) -/
+def loadAll (d : Dict) (r0 : Int) (ws : List String) : String :=
+  match loadPairs ws with
+  | Option.none => "bad-op"
+  | some ps =>
+    let rs := ps.map fun (o, f) => specService d o { restart := .int r0, fixing := .int f }
+    if rs.any Option.isNone then "raised"
+    else if rs.isEmpty then "-"
+    else "|".intercalate (rs.map showAttrs)
+
 end Primaite.C13Loader
